@@ -7,7 +7,7 @@ def enc(x):
     """float or int or Fraction (dyadic) -> 'm:e'"""
     if isinstance(x, float):
         if x == 0.0:
-            return "0:0"
+            return "-0:0" if math.copysign(1.0, x) < 0 else "0:0"   # the sign of zero travels to the real code
         m, e = math.frexp(x)            # x = m * 2^e, 0.5 <= |m| < 1
         m = int(m * (1 << 53))
         e -= 53
